@@ -239,6 +239,11 @@ def ctl_scenarios() -> dict[str, dict[str, Any]]:
         "cancel-vs-completeworkflow": {"spec": one, "hold": "CompleteWorkflow:|CancelWorkflow:", "workers": 2, "kind": "cancel", "cancel_when": "CompleteWorkflow:"},
         "cancel-vs-startworkflow": {"spec": one, "hold": "StartWorkflow:|CancelWorkflow:", "workers": 2, "kind": "cancel", "cancel_when": "StartWorkflow:"},
         "cancel-vs-last-completestage": {"spec": two, "hold": "CompleteStage:b|CancelWorkflow:", "workers": 2, "kind": "cancel", "cancel_when": "CompleteStage:b"},
+        # the fanned-out CancelStage of a stage racing that stage's StartStage (claim commit / plan commit window)
+        "cancelstage-vs-startstage": {"spec": {"name": "chain3", "stages": [stage("a", [], [ok()]), stage("s", ["a"], [ok(), ok()]), stage("z", ["s"], [ok()])]},
+                                      "hold": "StartStage:s|CancelStage:s", "workers": 2, "kind": "cancel", "cancel_when": "StartStage:s"},
+        "cancelstage-vs-startstage-built": {"spec": {"name": "chain3b", "stages": [stage("a", [], [ok()]), stage("s", ["a"], [ok(), ok()], built=True), stage("z", ["s"], [ok()])]},
+                                            "hold": "StartStage:s|CancelStage:s", "workers": 2, "kind": "cancel", "cancel_when": "StartStage:s"},
         "cancel-vs-first-completestage": {"spec": two, "hold": "CompleteStage:a|CancelWorkflow:", "workers": 2, "kind": "cancel", "cancel_when": "CompleteStage:a"},
     }
 
